@@ -42,7 +42,7 @@ warnings.filterwarnings('ignore')
 def main(checkers):
   try:
     import resource
-    lim = 6 * 1024 ** 3
+    lim = 40 * 1024 ** 3
     resource.setrlimit(resource.RLIMIT_AS, (lim, lim))
   except Exception:
     pass
